@@ -65,7 +65,7 @@ def main():
     files = re.findall(r"^\+\+\+ b/(\S+)", open(patch).read(), re.M)
     pkgs = sorted({"./" + os.path.dirname(f) for f in files})
     conf = {"repo_head": subprocess.check_output(["git", "-C", "/repo", "rev-parse", "--short", "HEAD"], text=True).strip(), "touched": files}
-    wt = "/tmp/wt-seedchk"
+    wt = "/tmp/wt-seedchk-%d" % os.getpid()
     if not a.skip_confirm:
         subprocess.run(["git", "-C", "/repo", "worktree", "remove", "--force", wt], capture_output=True)
         subprocess.check_call(["git", "-C", "/repo", "worktree", "add", "-q", "--detach", wt, "HEAD"])
